@@ -62,7 +62,7 @@ Lemma step_bound_to c st e mac :
   al_has (hunt st) mac = false -> (forall a, e = StartHunt a -> bytes_eqb (a_mac a) mac = false) ->
   (nas_to mac (snd (step c st e)) + pend_to mac (loops (fst (step c st e))) <= pend_to mac (loops st))%nat.
 Proof.
-  intros Hn Hs. destruct e as [a|a| |i order|i|src eth p hk|q]; cbn [step].
+  intros Hn Hs. destruct e as [a|a| |i order|i|src eth p hk|q| ]; cbn [step].
   - unfold start_hunt. destruct (is4 (a_ip a)); [cbn; lia|].
     destruct (is6 (a_ip a) && negb (is_llu (a_ip a))); [cbn; lia|].
     destruct (al_has (hunt st) (a_mac a)); [cbn; lia|].
@@ -92,6 +92,7 @@ Proof.
     destruct (negb hk); [cbn; lia|].
     destruct (ra_options p); try (cbn; lia).
     destruct (rt_find (routers st) src); cbn; lia.
+  - cbn. lia.
   - cbn. lia.
 Qed.
 
@@ -158,7 +159,7 @@ Qed.
 Lemma step_bound_closed c st e : closed st = true ->
   (nas_of (snd (step c st e)) + pend_all (loops (fst (step c st e))) <= pend_all (loops st))%nat.
 Proof.
-  intros Hc. destruct e as [a|a| |i order|i|src eth p hk|q]; cbn [step].
+  intros Hc. destruct e as [a|a| |i order|i|src eth p hk|q| ]; cbn [step].
   - unfold start_hunt. destruct (is4 (a_ip a)); [cbn; lia|].
     destruct (is6 (a_ip a) && negb (is_llu (a_ip a))); [cbn; lia|].
     destruct (al_has (hunt st) (a_mac a)); [cbn; lia|].
@@ -178,6 +179,7 @@ Proof.
     destruct (negb hk); [cbn; lia|].
     destruct (ra_options p); try (cbn; lia).
     destruct (rt_find (routers st) src); cbn; lia.
+  - cbn. lia.
   - cbn. lia.
 Qed.
 
